@@ -20,6 +20,55 @@
 #endif
 
 namespace {
+// every modifier that returns basic_inplace_string& must hand back *this itself: an lvalue, and the very object it was called on
+template <typename R, typename X>
+void ret_self(X&& r, void const* self)
+{
+    if constexpr (!std::is_lvalue_reference_v<R>) {
+        (void)r;
+        (void)self;
+        vf::diverge("returns:not-a-reference", "a prvalue (copy of the string)", "lvalue reference to *this");
+    } else if (static_cast<void const*>(&r) != self) {
+        vf::diverge("returns:another-object", "reference to another object", "reference to *this");
+    }
+}
+#define RS(...) ret_self<decltype((__VA_ARGS__))>((__VA_ARGS__), static_cast<void const*>(&e))
+
+// a genuinely single-pass source (like istream_iterator): every copy shares ONE read position, so a range can be walked exactly once
+template <typename C>
+struct SharedSrc {
+    C const* data;
+    std::size_t n;
+    std::size_t pos;
+};
+template <typename C>
+struct SinglePass {
+    using iterator_category = etl::input_iterator_tag;
+    using value_type        = C;
+    using difference_type   = std::ptrdiff_t;
+    using pointer           = C const*;
+    using reference         = C;
+    SharedSrc<C>* s         = nullptr; // nullptr: the end iterator
+    bool at_end() const { return s == nullptr || s->pos >= s->n; }
+    C operator*() const { return at_end() ? C('#') : s->data[s->pos]; }
+    SinglePass& operator++()
+    {
+        if (!at_end()) { ++s->pos; }
+        return *this;
+    }
+    struct Post {
+        C v;
+        C operator*() const { return v; }
+    };
+    Post operator++(int)
+    {
+        Post p{**this};
+        ++*this;
+        return p;
+    }
+    friend bool operator==(SinglePass const& a, SinglePass const& b) { return a.at_end() == b.at_end(); }
+    friend bool operator!=(SinglePass const& a, SinglePass const& b) { return a.at_end() != b.at_end(); }
+};
 using Ch  = VF_CHAR;
 using Str = std::basic_string<Ch>;
 using SV  = std::basic_string_view<Ch>;
@@ -234,7 +283,7 @@ struct Env {
             if (a.zlen() > N) { return; }
             Str r = a.zstr();
             CRUMB("operator=(ptr)", sit(fit), "m=%s s=%s", show(m).c_str(), show(t).c_str());
-            e = a.ptr();
+            RS(e = a.ptr());
             m = r;
             COVER("operator=(ptr)", h);
             break;
@@ -243,7 +292,7 @@ struct Env {
             if (N < 1) { return; }
             Ch c = draw_char();
             CRUMB("operator=(ch)", sit(fit), "m=%s ch=%u", show(m).c_str(), (unsigned)c);
-            e = c;
+            RS(e = c);
             m = Str(1, c);
             COVER("operator=(ch)", vf::mix(h, (unsigned)c));
             break;
@@ -251,7 +300,7 @@ struct Env {
         case 2: { // operator=(view)
             if (t.size() > N) { return; }
             CRUMB("operator=(view)", sit(fit), "m=%s s=%s", show(m).c_str(), show(t).c_str());
-            e = EV(a.ptr(), a.len());
+            RS(e = EV(a.ptr(), a.len()));
             m = t;
             COVER("operator=(view)", h);
             break;
@@ -260,7 +309,7 @@ struct Env {
             if (t.size() > N) { return; }
             E src = mk(t);
             CRUMB("operator=(string const&)", sit(fit), "m=%s s=%s", show(m).c_str(), show(t).c_str());
-            e = src;
+            RS(e = src);
             m = t;
             // copy is independent of its source
             if (!t.empty()) {
@@ -275,7 +324,7 @@ struct Env {
             if (t.size() > N) { return; }
             E src = mk(t);
             CRUMB("operator=(string&&)", sit(fit), "m=%s s=%s", show(m).c_str(), show(t).c_str());
-            e = static_cast<E&&>(src);
+            RS(e = static_cast<E&&>(src));
             m = t;
             COVER("operator=(string&&)", h);
             break;
@@ -284,7 +333,7 @@ struct Env {
             std::size_t cnt = draw_pos(N);
             Ch c            = draw_char();
             CRUMB("assign(count,ch)", sit(cnt == N ? "count=cap" : "count<cap"), "m=%s count=%zu ch=%u", show(m).c_str(), cnt, (unsigned)c);
-            e.assign(cnt, c);
+            RS(e.assign(cnt, c));
             m.assign(cnt, c);
             COVER("assign(count,ch)", vf::mix(cnt, (unsigned)c));
             break;
@@ -293,7 +342,7 @@ struct Env {
             if (t.size() > N) { return; }
             E src = mk(t);
             CRUMB("assign(string)", sit(fit), "m=%s s=%s", show(m).c_str(), show(t).c_str());
-            e.assign(src);
+            RS(e.assign(src));
             m.assign(t);
             COVER("assign(string)", h);
             break;
@@ -307,10 +356,10 @@ struct Env {
             CRUMB("assign(string,pos,count)", sit(poscls(pos, t.size()), use_default ? "count-defaulted" : (cnt == NPOS ? "count=npos" : "count")),
                 "m=%s s=%s pos=%zu count=%lld", show(m).c_str(), show(t).c_str(), pos, P(cnt));
             if (use_default) {
-                e.assign(src, pos);
+                RS(e.assign(src, pos));
                 m.assign(t, pos);
             } else {
-                e.assign(src, pos, cnt);
+                RS(e.assign(src, pos, cnt));
                 m.assign(t, pos, cnt);
             }
             COVER("assign(string,pos,count)", vf::mix(h, vf::mix(pos, cnt + use_default)));
@@ -320,7 +369,7 @@ struct Env {
             std::size_t cnt = draw_pos(t.size());
             if (cnt > N) { return; }
             CRUMB("assign(ptr,count)", sit(cnt == N ? "count=cap" : "count<cap"), "m=%s s=%s count=%zu", show(m).c_str(), show(t).c_str(), cnt);
-            e.assign(a.ptr(), cnt);
+            RS(e.assign(a.ptr(), cnt));
             m.assign(a.ptr(), cnt);
             COVER("assign(ptr,count)", vf::mix(h, cnt));
             break;
@@ -328,7 +377,7 @@ struct Env {
         case 9: { // assign(ptr)
             if (a.zlen() > N) { return; }
             CRUMB("assign(ptr)", sit(fit), "m=%s s=%s", show(m).c_str(), show(t).c_str());
-            e.assign(a.ptr());
+            RS(e.assign(a.ptr()));
             m.assign(a.ptr());
             COVER("assign(ptr)", h);
             break;
@@ -336,7 +385,7 @@ struct Env {
         case 10: { // assign(first,last)
             if (t.size() > N) { return; }
             CRUMB("assign(first,last)", sit(fit), "m=%s s=%s", show(m).c_str(), show(t).c_str());
-            e.assign(a.ptr(), a.ptr() + a.len());
+            RS(e.assign(a.ptr(), a.ptr() + a.len()));
             m.assign(a.ptr(), a.ptr() + a.len());
             COVER("assign(first,last)", h);
             break;
@@ -344,7 +393,7 @@ struct Env {
         case 11: { // assign(view)
             if (t.size() > N) { return; }
             CRUMB("assign(view)", sit(fit), "m=%s s=%s", show(m).c_str(), show(t).c_str());
-            e.assign(EV(a.ptr(), a.len()));
+            RS(e.assign(EV(a.ptr(), a.len())));
             m.assign(SV(a.ptr(), a.len()));
             COVER("assign(view)", h);
             break;
@@ -358,9 +407,9 @@ struct Env {
             CRUMB("assign(view,pos,count)", sit(poscls(pos, t.size()), use_default ? "count-defaulted" : (cnt == NPOS ? "count=npos" : "count")),
                 "m=%s s=%s pos=%zu count=%lld", show(m).c_str(), show(t).c_str(), pos, P(cnt));
             if (use_default) {
-                e.assign(EV(a.ptr(), a.len()), pos);
+                RS(e.assign(EV(a.ptr(), a.len()), pos));
             } else {
-                e.assign(EV(a.ptr(), a.len()), pos, cnt);
+                RS(e.assign(EV(a.ptr(), a.len()), pos, cnt));
             }
             m = r;
             COVER("assign(view,pos,count)", vf::mix(h, vf::mix(pos, cnt + use_default)));
@@ -493,7 +542,7 @@ struct Env {
         }
         }
         // observe the constructed object by installing it as the subject
-        e = x;
+        RS(e = x);
         m = r;
         vf::cover(op, h, true);
         check_state();
@@ -532,7 +581,7 @@ struct Env {
             Ch c            = draw_char();
             clamped         = cnt > room;
             CRUMB("append(count,ch)", sit(fitcls(cnt)), "m=%s count=%zu ch=%u", show(m).c_str(), cnt, (unsigned)c);
-            e.append(cnt, c);
+            RS(e.append(cnt, c));
             m.append(cnt, c);
             COVER("append(count,ch)", vf::mix(cnt, (unsigned)c));
             break;
@@ -540,7 +589,7 @@ struct Env {
         case 3: { // append(ptr)
             clamped = a.zlen() > room;
             CRUMB("append(ptr)", sit(fitcls(a.zlen())), "m=%s s=%s", show(m).c_str(), show(t).c_str());
-            e.append(a.ptr());
+            RS(e.append(a.ptr()));
             m.append(a.ptr());
             COVER("append(ptr)", h);
             break;
@@ -549,7 +598,7 @@ struct Env {
             std::size_t cnt = draw_pos(t.size());
             clamped         = cnt > room;
             CRUMB("append(ptr,count)", sit(fitcls(cnt)), "m=%s s=%s count=%zu", show(m).c_str(), show(t).c_str(), cnt);
-            e.append(a.ptr(), cnt);
+            RS(e.append(a.ptr(), cnt));
             m.append(a.ptr(), cnt);
             COVER("append(ptr,count)", vf::mix(h, cnt));
             break;
@@ -560,8 +609,16 @@ struct Env {
                 if (!kChecksOff) { return; }
                 clamped = true;
             }
+            if (ch.flag()) { // a single-pass input range: may be walked once only
+                CRUMB("append(first,last):single-pass-input-iterators", sit(fitcls(t.size())), "m=%s s=%s", show(m).c_str(), show(t).c_str());
+                SharedSrc<Ch> src{a.ptr(), a.len(), 0};
+                RS(e.append(SinglePass<Ch>{&src}, SinglePass<Ch>{}));
+                m.append(a.ptr(), a.ptr() + a.len());
+                COVER("append(first,last):single-pass-input-iterators", h);
+                break;
+            }
             CRUMB("append(first,last)", sit(fitcls(t.size())), "m=%s s=%s", show(m).c_str(), show(t).c_str());
-            e.append(a.ptr(), a.ptr() + a.len());
+            RS(e.append(a.ptr(), a.ptr() + a.len()));
             m.append(a.ptr(), a.ptr() + a.len());
             COVER("append(first,last)", h);
             break;
@@ -574,7 +631,7 @@ struct Env {
             }
             E src = mk(t);
             CRUMB("append(string)", sit(fitcls(t.size())), "m=%s s=%s", show(m).c_str(), show(t).c_str());
-            e.append(src);
+            RS(e.append(src));
             m.append(t);
             COVER("append(string)", h);
             break;
@@ -593,9 +650,9 @@ struct Env {
             CRUMB("append(string,pos,count)", sit(fitcls(sub.size()), poscls(pos, t.size())), "m=%s s=%s pos=%zu count=%lld", show(m).c_str(),
                 show(t).c_str(), pos, P(cnt));
             if (use_default) {
-                e.append(src, pos);
+                RS(e.append(src, pos));
             } else {
-                e.append(src, pos, cnt);
+                RS(e.append(src, pos, cnt));
             }
             m.append(sub);
             COVER("append(string,pos,count)", vf::mix(h, vf::mix(pos, cnt + use_default)));
@@ -604,7 +661,7 @@ struct Env {
         case 8: { // append(view)
             clamped = t.size() > room;
             CRUMB("append(view)", sit(fitcls(t.size())), "m=%s s=%s", show(m).c_str(), show(t).c_str());
-            e.append(EV(a.ptr(), a.len()));
+            RS(e.append(EV(a.ptr(), a.len())));
             m.append(t);
             COVER("append(view)", h);
             break;
@@ -618,9 +675,9 @@ struct Env {
             CRUMB("append(view,pos,count)", sit(fitcls(sub.size()), poscls(pos, t.size())), "m=%s s=%s pos=%zu count=%lld", show(m).c_str(),
                 show(t).c_str(), pos, P(cnt));
             if (use_default) {
-                e.append(EV(a.ptr(), a.len()), pos);
+                RS(e.append(EV(a.ptr(), a.len()), pos));
             } else {
-                e.append(EV(a.ptr(), a.len()), pos, cnt);
+                RS(e.append(EV(a.ptr(), a.len()), pos, cnt));
             }
             m.append(sub);
             COVER("append(view,pos,count)", vf::mix(h, vf::mix(pos, cnt + use_default)));
@@ -630,7 +687,7 @@ struct Env {
             Ch c    = draw_char();
             clamped = room == 0;
             CRUMB("operator+=(ch)", sit(fitcls(1)), "m=%s ch=%u", show(m).c_str(), (unsigned)c);
-            e += c;
+            RS(e += c);
             m += c;
             COVER("operator+=(ch)", (unsigned)c);
             break;
@@ -638,7 +695,7 @@ struct Env {
         case 11: { // operator+=(ptr)
             clamped = a.zlen() > room;
             CRUMB("operator+=(ptr)", sit(fitcls(a.zlen())), "m=%s s=%s", show(m).c_str(), show(t).c_str());
-            e += a.ptr();
+            RS(e += a.ptr());
             m += a.ptr();
             COVER("operator+=(ptr)", h);
             break;
@@ -653,9 +710,9 @@ struct Env {
             E src     = mk(t);
             CRUMB(view ? "operator+=(view)" : "operator+=(string)", sit(fitcls(t.size())), "m=%s s=%s", show(m).c_str(), show(t).c_str());
             if (view) {
-                e += EV(a.ptr(), a.len());
+                RS(e += EV(a.ptr(), a.len()));
             } else {
-                e += src;
+                RS(e += src);
             }
             m += t;
             COVER(view ? "operator+=(view)" : "operator+=(string)", h);
@@ -684,7 +741,7 @@ struct Env {
             clamped         = cnt > room;
             CRUMB("insert(index,count,ch)", sit(poscls(idx, L), clamped ? "clamped" : (cnt == room ? "fills" : "fits")), "m=%s index=%zu count=%zu ch=%u",
                 show(m).c_str(), idx, cnt, (unsigned)c);
-            e.insert(idx, cnt, c);
+            RS(e.insert(idx, cnt, c));
             m.insert(idx, cnt, c);
             COVER("insert(index,count,ch)", vf::mix(idx, vf::mix(cnt, (unsigned)c)));
             break;
@@ -693,7 +750,7 @@ struct Env {
             if (a.zlen() > room) { return; }
             std::size_t idx = draw_pos(L);
             CRUMB("insert(index,ptr)", sit(poscls(idx, L), a.zlen() == room ? "fills" : "fits"), "m=%s index=%zu s=%s", show(m).c_str(), idx, show(t).c_str());
-            e.insert(idx, a.ptr());
+            RS(e.insert(idx, a.ptr()));
             m.insert(idx, a.ptr());
             COVER("insert(index,ptr)", vf::mix(h, idx));
             break;
@@ -704,7 +761,7 @@ struct Env {
             std::size_t idx = draw_pos(L);
             CRUMB("insert(index,ptr,count)", sit(poscls(idx, L), clamped ? "clamped" : (cnt == room ? "fills" : "fits")), "m=%s index=%zu s=%s count=%zu",
                 show(m).c_str(), idx, show(t).c_str(), cnt);
-            e.insert(idx, a.ptr(), cnt);
+            RS(e.insert(idx, a.ptr(), cnt));
             m.insert(idx, a.ptr(), cnt);
             COVER("insert(index,ptr,count)", vf::mix(h, vf::mix(idx, cnt)));
             break;
@@ -714,7 +771,7 @@ struct Env {
             std::size_t idx = draw_pos(L);
             E src           = mk(t);
             CRUMB("insert(index,string)", sit(poscls(idx, L), t.size() == room ? "fills" : "fits"), "m=%s index=%zu s=%s", show(m).c_str(), idx, show(t).c_str());
-            e.insert(idx, src);
+            RS(e.insert(idx, src));
             m.insert(idx, t);
             COVER("insert(index,string)", vf::mix(h, idx));
             break;
@@ -731,9 +788,9 @@ struct Env {
             CRUMB("insert(index,string,index_str,count)", sit(poscls(idx, L), poscls(is, t.size())), "m=%s index=%zu s=%s index_str=%zu count=%lld",
                 show(m).c_str(), idx, show(t).c_str(), is, P(cnt));
             if (use_default) {
-                e.insert(idx, src, is);
+                RS(e.insert(idx, src, is));
             } else {
-                e.insert(idx, src, is, cnt);
+                RS(e.insert(idx, src, is, cnt));
             }
             m.insert(idx, sub);
             COVER("insert(index,string,index_str,count)", vf::mix(h, vf::mix(idx, vf::mix(is, cnt + use_default))));
@@ -743,7 +800,7 @@ struct Env {
             if (t.size() > room) { return; }
             std::size_t idx = draw_pos(L);
             CRUMB("insert(index,view)", sit(poscls(idx, L), t.size() == room ? "fills" : "fits"), "m=%s index=%zu s=%s", show(m).c_str(), idx, show(t).c_str());
-            e.insert(idx, EV(a.ptr(), a.len()));
+            RS(e.insert(idx, EV(a.ptr(), a.len())));
             m.insert(idx, t);
             COVER("insert(index,view)", vf::mix(h, idx));
             break;
@@ -758,9 +815,9 @@ struct Env {
             CRUMB("insert(index,view,index_str,count)", sit(poscls(idx, L), poscls(is, t.size())), "m=%s index=%zu s=%s index_str=%zu count=%lld",
                 show(m).c_str(), idx, show(t).c_str(), is, P(cnt));
             if (use_default) {
-                e.insert(idx, EV(a.ptr(), a.len()), is);
+                RS(e.insert(idx, EV(a.ptr(), a.len()), is));
             } else {
-                e.insert(idx, EV(a.ptr(), a.len()), is, cnt);
+                RS(e.insert(idx, EV(a.ptr(), a.len()), is, cnt));
             }
             m.insert(idx, sub);
             COVER("insert(index,view,index_str,count)", vf::mix(h, vf::mix(idx, vf::mix(is, cnt + use_default))));
@@ -776,11 +833,11 @@ struct Env {
             CRUMB("erase(index,count)", sit(poscls(idx, L), all ? "erases-all" : (form ? "defaulted" : "some")), "m=%s index=%zu count=%lld form=%u",
                 show(m).c_str(), idx, P(cnt), form);
             if (form == 0) {
-                e.erase(idx, cnt);
+                RS(e.erase(idx, cnt));
             } else if (form == 1) {
-                e.erase(idx);
+                RS(e.erase(idx));
             } else {
-                e.erase();
+                RS(e.erase());
             }
             m.erase(idx, cnt);
             COVER("erase(index,count)", vf::mix(idx, vf::mix(cnt, form)));
@@ -867,7 +924,7 @@ struct Env {
             if (t.size() > N || !fits(t.size())) { return; }
             E src = mk(t);
             CRUMB("replace(pos,count,string)", sit(lencls(t.size()), pc), "m=%s pos=%zu count=%lld s=%s", show(m).c_str(), pos, P(cnt), show(t).c_str());
-            e.replace(pos, cnt, src);
+            RS(e.replace(pos, cnt, src));
             m.replace(pos, cnt, t);
             COVER("replace(pos,count,string)", vf::mix(h, vf::mix(pos, cnt)));
             break;
@@ -876,7 +933,7 @@ struct Env {
             if (t.size() > N || !fits(t.size())) { return; }
             E src = mk(t);
             CRUMB("replace(first,last,string)", sit(lencls(t.size()), pc), "m=%s first=%zu last=%zu s=%s", show(m).c_str(), pos, pos + rc, show(t).c_str());
-            e.replace(e.cbegin() + pos, e.cbegin() + pos + rc, src);
+            RS(e.replace(e.cbegin() + pos, e.cbegin() + pos + rc, src));
             m.replace(m.cbegin() + (std::ptrdiff_t)pos, m.cbegin() + (std::ptrdiff_t)(pos + rc), t);
             COVER("replace(first,last,string)", vf::mix(h, vf::mix(pos, rc)));
             break;
@@ -892,9 +949,9 @@ struct Env {
             CRUMB("replace(pos,count,string,pos2,count2)", sit(lencls(sub.size()), pc), "m=%s pos=%zu count=%lld s=%s pos2=%zu count2=%lld", show(m).c_str(),
                 pos, P(cnt), show(t).c_str(), p2, P(c2));
             if (use_default) {
-                e.replace(pos, cnt, src, p2);
+                RS(e.replace(pos, cnt, src, p2));
             } else {
-                e.replace(pos, cnt, src, p2, c2);
+                RS(e.replace(pos, cnt, src, p2, c2));
             }
             m.replace(pos, cnt, t, p2, c2);
             COVER("replace(pos,count,string,pos2,count2)", vf::mix(h, vf::mix(vf::mix(pos, cnt), vf::mix(p2, c2 + use_default))));
@@ -905,7 +962,7 @@ struct Env {
             if (!fits(c2)) { return; }
             CRUMB("replace(pos,count,ptr,count2)", sit(lencls(c2), pc), "m=%s pos=%zu count=%lld s=%s count2=%zu", show(m).c_str(), pos, P(cnt), show(t).c_str(),
                 c2);
-            e.replace(pos, cnt, a.ptr(), c2);
+            RS(e.replace(pos, cnt, a.ptr(), c2));
             m.replace(pos, cnt, a.ptr(), c2);
             COVER("replace(pos,count,ptr,count2)", vf::mix(h, vf::mix(vf::mix(pos, cnt), c2)));
             break;
@@ -915,7 +972,7 @@ struct Env {
             if (!fits(c2)) { return; }
             CRUMB("replace(first,last,ptr,count2)", sit(lencls(c2), pc), "m=%s first=%zu last=%zu s=%s count2=%zu", show(m).c_str(), pos, pos + rc,
                 show(t).c_str(), c2);
-            e.replace(e.cbegin() + pos, e.cbegin() + pos + rc, a.ptr(), c2);
+            RS(e.replace(e.cbegin() + pos, e.cbegin() + pos + rc, a.ptr(), c2));
             m.replace(m.cbegin() + (std::ptrdiff_t)pos, m.cbegin() + (std::ptrdiff_t)(pos + rc), a.ptr(), c2);
             COVER("replace(first,last,ptr,count2)", vf::mix(h, vf::mix(vf::mix(pos, rc), c2)));
             break;
@@ -926,10 +983,10 @@ struct Env {
             CRUMB(iters ? "replace(first,last,ptr)" : "replace(pos,count,ptr)", sit(lencls(a.zlen()), pc), "m=%s pos=%zu count=%lld s=%s", show(m).c_str(), pos,
                 P(cnt), show(t).c_str());
             if (iters) {
-                e.replace(e.cbegin() + pos, e.cbegin() + pos + rc, a.ptr());
+                RS(e.replace(e.cbegin() + pos, e.cbegin() + pos + rc, a.ptr()));
                 m.replace(m.cbegin() + (std::ptrdiff_t)pos, m.cbegin() + (std::ptrdiff_t)(pos + rc), a.ptr());
             } else {
-                e.replace(pos, cnt, a.ptr());
+                RS(e.replace(pos, cnt, a.ptr()));
                 m.replace(pos, cnt, a.ptr());
             }
             COVER(iters ? "replace(first,last,ptr)" : "replace(pos,count,ptr)", vf::mix(h, vf::mix(pos, cnt)));
@@ -941,7 +998,7 @@ struct Env {
             Ch c = draw_char();
             CRUMB("replace(first,last,count2,ch)", sit(lencls(c2), pc), "m=%s first=%zu last=%zu count2=%zu ch=%u", show(m).c_str(), pos, pos + rc, c2,
                 (unsigned)c);
-            e.replace(e.cbegin() + pos, e.cbegin() + pos + rc, c2, c);
+            RS(e.replace(e.cbegin() + pos, e.cbegin() + pos + rc, c2, c));
             m.replace(m.cbegin() + (std::ptrdiff_t)pos, m.cbegin() + (std::ptrdiff_t)(pos + rc), c2, c);
             COVER("replace(first,last,count2,ch)", vf::mix(vf::mix(pos, rc), vf::mix(c2, (unsigned)c)));
             break;
@@ -1290,7 +1347,7 @@ struct Env {
     // arguments that alias the string's own buffer (std::basic_string supports all of these)
     void op_self_alias()
     {
-        unsigned which  = ch.pick(10);
+        unsigned which  = ch.pick(16);
         std::size_t L   = m.size();
         std::size_t room = N - L;
         std::size_t k   = draw_pos(L);          // offset into own buffer
@@ -1300,27 +1357,27 @@ struct Env {
         switch (which) {
         case 0:
             CRUMB("assign(ptr,count) own buffer", sit(kc), "m=%s k=%zu count=%zu", show(m).c_str(), k, cnt);
-            e.assign(e.data() + k, cnt);
+            RS(e.assign(e.data() + k, cnt));
             m.assign(m.data() + k, cnt);
             break;
         case 1: {
             Str r(m.c_str() + k);
             CRUMB("operator=(ptr) own buffer", sit(kc), "m=%s k=%zu", show(m).c_str(), k);
-            e = e.c_str() + k;
+            RS(e = e.c_str() + k);
             m = r;
             break;
         }
         case 2: {
             Str r(m.c_str() + k);
             CRUMB("assign(ptr) own buffer", sit(kc), "m=%s k=%zu", show(m).c_str(), k);
-            e.assign(e.c_str() + k);
+            RS(e.assign(e.c_str() + k));
             m = r;
             break;
         }
         case 3:
             if (cnt > room) { return; }
             CRUMB("append(ptr,count) own buffer", sit(kc, cnt == room ? "fills" : "fits"), "m=%s k=%zu count=%zu", show(m).c_str(), k, cnt);
-            e.append(e.data() + k, cnt);
+            RS(e.append(e.data() + k, cnt));
             m.append(Str(m.data() + k, cnt));
             break;
         case 4: {
@@ -1328,26 +1385,26 @@ struct Env {
             std::size_t idx = draw_pos(L);
             Str piece(m.data() + k, cnt);
             CRUMB("insert(index,ptr,count) own buffer", sit(kc, poscls(idx, L)), "m=%s index=%zu k=%zu count=%zu", show(m).c_str(), idx, k, cnt);
-            e.insert(idx, e.data() + k, cnt);
+            RS(e.insert(idx, e.data() + k, cnt));
             m.insert(idx, piece);
             h = vf::mix(h, idx);
             break;
         }
         case 5:
             CRUMB("assign(self)", sit("-"), "m=%s", show(m).c_str());
-            e.assign(e);
+            RS(e.assign(e));
             break;
         case 6:
             if (L > room) { return; }
             CRUMB("append(self)", sit(L == room ? "fills" : "fits"), "m=%s", show(m).c_str());
-            e.append(e);
+            RS(e.append(e));
             m.append(Str(m));
             break;
         case 7: {
             if (L > room) { return; }
             std::size_t idx = draw_pos(L);
             CRUMB("insert(index,self)", sit(poscls(idx, L)), "m=%s index=%zu", show(m).c_str(), idx);
-            e.insert(idx, e);
+            RS(e.insert(idx, e));
             m.insert(idx, Str(m));
             h = vf::mix(h, idx);
             break;
@@ -1355,14 +1412,81 @@ struct Env {
         case 8:
             if (L > room) { return; }
             CRUMB("operator+=(self)", sit(L == room ? "fills" : "fits"), "m=%s", show(m).c_str());
-            e += e;
+            RS(e += e);
             m += Str(m);
             break;
-        default:
+        case 9:
             CRUMB("assign(view of self)", sit(kc), "m=%s k=%zu count=%zu", show(m).c_str(), k, cnt);
-            e.assign(EV(e.data() + k, cnt));
+            RS(e.assign(EV(e.data() + k, cnt)));
             m = Str(m.data() + k, cnt);
             break;
+        // the CHARACTER argument is an element of the string itself (an lvalue such as s[k] or s.back()): a by-value parameter keeps its
+        // value while the string is being modified
+        case 10: {
+            if (k >= L) { return; }
+            std::size_t n2 = draw_pos(room < 3 ? room : 3);
+            std::size_t idx = draw_pos(L);
+            Ch c0 = m[k];
+            CRUMB("insert(index,count,ch) ch=own element", sit(poscls(idx, L), idx <= k ? "element-behind-index" : "element-before-index"), "m=%s index=%zu count=%zu k=%zu",
+                show(m).c_str(), idx, n2, k);
+            RS(e.insert(idx, n2, e[k]));
+            m.insert(idx, n2, c0);
+            h = vf::mix(h, vf::mix(idx, n2));
+            break;
+        }
+        case 11: {
+            if (k >= L) { return; }
+            std::size_t n2 = draw_pos(room < 3 ? room : 3);
+            Ch c0 = m[k];
+            CRUMB("append(count,ch) ch=own element", sit(kc), "m=%s count=%zu k=%zu", show(m).c_str(), n2, k);
+            RS(e.append(n2, e[k]));
+            m.append(n2, c0);
+            h = vf::mix(h, n2);
+            break;
+        }
+        case 12: {
+            if (k >= L) { return; }
+            std::size_t n2 = draw_pos(N < 3 ? N : 3);
+            Ch c0 = m[k];
+            CRUMB("assign(count,ch) ch=own element", sit(kc), "m=%s count=%zu k=%zu", show(m).c_str(), n2, k);
+            RS(e.assign(n2, e[k]));
+            m.assign(n2, c0);
+            h = vf::mix(h, n2);
+            break;
+        }
+        case 13: {
+            if (k >= L) { return; }
+            std::size_t n2 = draw_pos(N);
+            Ch c0 = m[k];
+            CRUMB("resize(n,ch) ch=own element", sit(n2 < L ? "shrink" : (n2 == L ? "same" : "grow")), "m=%s n=%zu k=%zu", show(m).c_str(), n2, k);
+            e.resize(n2, e[k]);
+            m.resize(n2, c0);
+            h = vf::mix(h, n2);
+            break;
+        }
+        case 14: {
+            if (k >= L || room == 0) { return; }
+            Ch c0 = m[k];
+            bool pb = ch.flag();
+            CRUMB(pb ? "push_back(ch) ch=own element" : "operator+=(ch) ch=own element", sit(kc), "m=%s k=%zu", show(m).c_str(), k);
+            if (pb) {
+                e.push_back(e[k]);
+            } else {
+                RS(e += e[k]);
+            }
+            m.push_back(c0);
+            h = vf::mix(h, pb);
+            break;
+        }
+        default: {
+            if (k >= L) { return; }
+            Ch c0 = m[k];
+            CRUMB("operator=(ch) ch=own element", sit(kc), "m=%s k=%zu", show(m).c_str(), k);
+            RS(e = e[k]);
+            m = Str(1, c0);
+            if (N == 0) { m.clear(); }
+            break;
+        }
         }
         COVER("self-alias", h);
         check_state();
